@@ -16,6 +16,8 @@ import (
 
 	"symgo/lift"
 	"symgo/sym"
+
+	"golang.org/x/tools/go/ssa"
 )
 
 var liftedSrc string
@@ -34,6 +36,8 @@ type RunSpec struct {
 	SidePolicy    map[string]string `json:"side_policy"`
 	Solvers       []string          `json:"solvers"`
 	NoCosim       bool              `json:"no_cosim"`
+	PruneIf       bool              `json:"prune_branches"`
+	ExecBudgetS   int               `json:"exec_budget_s"`
 	ExpectSat     []string          `json:"expect_sat"` // obligation ids that are informational witnesses
 	Informational []string          `json:"informational"`
 }
@@ -44,10 +48,22 @@ type Spec struct {
 	HarnessDirs []string      `json:"harness_dirs"`
 	Level       string        `json:"level"`
 	Regions     []lift.Region `json:"regions"`
+	Stubs       []StubSpec    `json:"stubs"`
+	DecSegs     bool          `json:"dec_segs"`
+	PruneIf     bool          `json:"prune_branches"`
+	MaxSymLen   int           `json:"max_sym_len"`
 	Runs        []RunSpec     `json:"runs"`
 	Assumptions []string      `json:"assumptions"`
 	Outside     []string      `json:"outside"`
 	Trusted     []string      `json:"trusted_base"`
+}
+
+// StubSpec replaces a function of the package under test by a symbolic input
+// (e.g. a file reader by "returns an arbitrary line count").
+type StubSpec struct {
+	Func  string `json:"func"`
+	Input string `json:"input"`
+	Kind  string `json:"kind"`
 }
 
 type Finding struct {
@@ -396,6 +412,27 @@ func runInstance(ld *sym.Loaded, spec *Spec, rs *RunSpec, args []int64, known ma
 	}
 	e := sym.NewExec(ld.Prog, ld.Pkg, mode)
 	e.Known = known
+	e.DecSegs = spec.DecSegs
+	e.PruneIf = spec.PruneIf || rs.PruneIf
+	budget := 300
+	if rs.ExecBudgetS > 0 {
+		budget = rs.ExecBudgetS
+	}
+	e.Deadline = time.Now().Add(time.Duration(budget) * time.Second)
+	if spec.MaxSymLen > 0 {
+		e.MaxSymLen = spec.MaxSymLen
+	}
+	if len(spec.Stubs) > 0 {
+		stubsCopy := spec.Stubs
+		e.SetUserStub(func(ex *sym.Exec, st *sym.State, fn *ssa.Function, args []sym.Val, where string) (sym.Val, bool) {
+			for _, sp := range stubsCopy {
+				if fn.Name() == sp.Func && fn.Pkg == ex.Pkg {
+					return ex.Input(sp.Input, "int", fn.Signature.Results().At(0).Type()), true
+				}
+			}
+			return nil, false
+		})
+	}
 	if rs.Unwind > 0 {
 		e.Unwind = rs.Unwind
 	}
@@ -785,10 +822,17 @@ func nativeReplay(spec *Spec, harness string, args []int, vals map[string]string
 
 func nativeReplayFile(spec *Spec, replayPath, tmp string) (fails []string, assumeBad bool, out string, err error) {
 	overlay := map[string]string{}
+	pkgName := sym.PkgNameOf(spec.PackageDir)
 	for _, hd := range spec.HarnessDirs {
 		files, _ := filepath.Glob(filepath.Join(verifRoot, hd, "*.go"))
 		for _, f := range files {
-			overlay[filepath.Join(spec.PackageDir, "zz_verif_"+filepath.Base(f))] = f
+			b, err := os.ReadFile(f)
+			if err != nil {
+				continue
+			}
+			cp := filepath.Join(tmp, "h_"+sanitize(hd)+"_"+filepath.Base(f))
+			os.WriteFile(cp, sym.RewritePackage(b, pkgName), 0644)
+			overlay[filepath.Join(spec.PackageDir, "zz_verif_"+filepath.Base(f))] = cp
 		}
 	}
 	if len(spec.Regions) > 0 {
@@ -802,7 +846,7 @@ func nativeReplayFile(spec *Spec, replayPath, tmp string) (fails []string, assum
 		overlay[filepath.Join(spec.PackageDir, "zz_verif_lifted.go")] = lf
 	}
 	tf := filepath.Join(tmp, "zz_verif_replay_test.go")
-	os.WriteFile(tf, []byte(fmt.Sprintf(replayTest, pkgNameOf(spec.PackageDir))), 0644)
+	os.WriteFile(tf, []byte(fmt.Sprintf(replayTest, pkgName)), 0644)
 	overlay[filepath.Join(spec.PackageDir, "zz_verif_replay_test.go")] = tf
 	oj, _ := json.Marshal(map[string]interface{}{"Replace": overlay})
 	op := filepath.Join(tmp, "overlay.json")
